@@ -9,7 +9,7 @@ git diff -- src > $O/cur.diff
 if ! diff -q <(grep -v '^index ' $O/cur.diff) <(grep -v '^index ' $O/patch.diff) >/dev/null; then echo "NOTE: worktree diff differs from patch.diff; re-applying"; git checkout -- src; git apply $O/patch.diff || exit 2; fi
 export CARGO_TARGET_DIR=$T CARGO_NET_OFFLINE=true
 demo=${*:-cargo test --offline --test seed_demo}
-echo "== suite with change"; timeout 1800 cargo test --workspace --no-fail-fast --offline > $O/confirm_suite.log 2>&1; grep -E "^test .* FAILED|^test result: FAILED" $O/confirm_suite.log | head; grep -c "^test result: ok" $O/confirm_suite.log
+echo "== suite with change"; timeout ${SUITE_TIMEOUT:-1800} cargo test --workspace --no-fail-fast --offline > $O/confirm_suite.log 2>&1; grep -E "^test .* FAILED|^test result: FAILED" $O/confirm_suite.log | head; grep -c "^test result: ok" $O/confirm_suite.log
 echo "== demo with change (must FAIL)"; timeout 900 bash -c "$demo" > $O/confirm_demo_with.log 2>&1; echo "exit=$?"; grep -E "^test |test result|VIOLATION|FAIL|OK" $O/confirm_demo_with.log | head -12
 git apply -R $O/patch.diff || exit 2
 echo "== demo without change (must PASS)"; timeout 900 bash -c "$demo" > $O/confirm_demo_without.log 2>&1; echo "exit=$?"; grep -E "^test |test result|VIOLATION|FAIL|OK" $O/confirm_demo_without.log | head -12
